@@ -1,6 +1,6 @@
 (* Model/Json.v — graph.rs `Serialize` impls (Graph, SerializeGraphNode, SerializeGraphNodeEdges/Edge,
    Attributes, Value) as producers of a JSON *tree*, and a decoder that looks members up BY KEY.
-   serde_json's text rendering / parsing is outside the model (modelled dependency).
+   serde_json's text rendering (to_string_pretty) is modelled in Model/JsonText.v; its own parser is outside the model.
    Panic sites: none reachable.  The Serialize impls only call serialize_seq/serialize_map/
    serialize_entry/end and propagate errors with `?`; display_json unwraps to_string_pretty, which
    cannot fail here (every map key is a string: literal keys and Identifier, serialised with
